@@ -1,7 +1,7 @@
 (* C15/Props.v -- the property theorems, and nothing else. *)
 From Coq Require Import ZArith List Lia Bool QArith Qround Qabs.
 From PV Require Import Base.NpList Base.NpSearch C15.Model C15.Spec C15.Proofs C15.Proofs2 C15.Proofs3 C15.Proofs4.
-From PV Require Import C15.ParamsModel C15.Proofs5 C15.Proofs6 C15.Proofs7.
+From PV Require Import C15.ParamsModel C15.Proofs5 C15.Proofs6 C15.Proofs7 C15.Proofs8.
 Import ListNotations.
 Open Scope Z_scope.
 
@@ -172,7 +172,8 @@ Print Assumptions C15_checker_rate_complete.
 (* ---- the counts are bounded.  The code's array is np.int32 (_create_correlograms_array) and the increment
    `arr[:len(bbins)] += bbins` casts the int64 bincount into it (same-kind cast, silent wrap-around).  No entry of a
    correct one-sided (resp. symmetrised) correlogram exceeds n(n-1)/2, so for n <= 65536 spikes
-   (65536 * 65535 / 2 = 2147450880 < 2^31) no entry can wrap, for any labelling, bin and window. ---- *)
+   (65536 * 65535 / 2 = 2147450880 < 2^31) no entry could wrap even in the ORIGINAL int32 array, for any labelling, bin and
+   window; one spike more and it did (defect repaired on fix-c15: the array is int64 now, see C15_int64_exact). ---- *)
 Theorem C15_count_bound : forall (t labels ids : list Z) (bs W : Z) (C : cube),
   OneSided_Spec t labels ids bs W C ->
   forall i j k, (i < length ids)%nat -> (j < length ids)%nat -> Z.of_nat k <= W ->
@@ -192,21 +193,45 @@ Proof. exact sym_count_bound. Qed.
 Print Assumptions C15_count_bound_sym.
 
 (* ... and the bound is attained: n coincident spikes of one cluster put all n(n-1)/2 pairs into the zero-lag
-   entry -- with 65537 such spikes the true count is 2147516416 >= 2^31 (phylib returns -2147450880 there:
-   measured, see notes; outside the regime of the correspondence, which is n <= 65536) *)
+   entry -- with 65537 such spikes the true count is 2147516416 >= 2^31 (the unrepaired phylib returned -2147450880
+   there: the failing input of the defect, kept as an InCoinc case of the generator) *)
 Theorem C15_count_bound_tight : forall (s c bs : Z) (n : nat),
   2 * pair_count (repeat s n) bs (repeat c n) c c 0 = Z.of_nat n * (Z.of_nat n - 1).
 Proof. exact pair_count_coincident. Qed.
 Print Assumptions C15_count_bound_tight.
 
-(* ... hence the np.int32 storage is exact: wrap32 = the value an int32 cell holds after the exact count was added
-   into it; every partial sum of the non-negative increments lies between 0 and the final count *)
-Theorem C15_int32_exact : forall (t labels ids : list Z) (bs W : Z) (C : cube),
-  OneSided_Spec t labels ids bs W C -> Z.of_nat (length t) <= 65536 ->
+(* ... hence the np.int64 storage of the code (after fix-c15; `_create_correlograms_array`, the int64 bincount is
+   added into it, `np.maximum`/`dstack` keep the dtype) is exact for every train of at most 2^32 spikes
+   (2^32 * (2^32 - 1) / 2 = 2^63 - 2^31 <= 2^63 - 1): wrap64 = the value an int64 cell holds after the exact count was
+   added into it; every partial sum of the non-negative increments lies between 0 and the final count.
+   (Before the fix the array was int32 and the analogous statement held only up to 65536 spikes -- third conjunct of
+   C15_count_bound -- and FAILED at 65537: C15_count_bound_tight, C15_ex_int32.) *)
+Theorem C15_int64_exact : forall (t labels ids : list Z) (bs W : Z) (C : cube),
+  OneSided_Spec t labels ids bs W C -> Z.of_nat (length t) <= 2 ^ 32 ->
   forall i j k, (i < length ids)%nat -> (j < length ids)%nat -> Z.of_nat k <= W ->
-    wrap32 (nth k (cell C i j) 0) = nth k (cell C i j) 0.
-Proof. exact onesided_int32_exact. Qed.
-Print Assumptions C15_int32_exact.
+    wrap64 (nth k (cell C i j) 0) = nth k (cell C i j) 0.
+Proof. exact onesided_int64_exact. Qed.
+Print Assumptions C15_int64_exact.
+
+Theorem C15_int64_exact_sym : forall (t labels ids : list Z) (bs W : Z) (C S' : cube), 0 <= W ->
+  OneSided_Spec t labels ids bs W C -> Sym_Spec (length ids) (Z.to_nat W) C S' -> Z.of_nat (length t) <= 2 ^ 32 ->
+  forall i j k, (i < length ids)%nat -> (j < length ids)%nat -> (k <= 2 * Z.to_nat W)%nat ->
+    wrap64 (nth k (cell S' i j) 0) = nth k (cell S' i j) 0.
+Proof. exact sym_int64_exact. Qed.
+Print Assumptions C15_int64_exact_sym.
+
+(* n coincident spikes of one cluster, caller's list [c]: the model's result in closed form, for EVERY n -- all
+   n(n-1)/2 pairs in the zero-lag entry, zeros elsewhere; symmetrised: the same count at the centre of 2W+1 bins.
+   Corr.v judges such cases (constructor InCoinc) against this closed form, so that the 65537-spike input on which the
+   unrepaired int32 array wrapped is checked without evaluating the quadratic model on it. *)
+Theorem C15_coincident : forall (s c : Z) (n : nat) (rate bin win : Q), (0 < rate)%Q -> 0 <= c ->
+  1 <= binsize_of rate bin ->
+  correlograms (repeat s n) (repeat c n) (Some [c]) rate bin win false =
+    Some (coinc_onesided (Z.of_nat n) (half_of bin win)) /\
+  correlograms (repeat s n) (repeat c n) (Some [c]) rate bin win true =
+    Some (coinc_sym (Z.of_nat n) (half_of bin win)).
+Proof. exact correlograms_coincident. Qed.
+Print Assumptions C15_coincident.
 
 (* ---- error exits of the asserts on the parameters (rate > 0, equal shapes, binsize >= 1; firing_rate:
    bin_size > 0) and the `duration or 1.` default: None and 0 both mean 1, so there is no division by zero ---- *)
@@ -376,9 +401,16 @@ Proof.
       apply (is_f64_Qmake 7 2 1); [reflexivity|lia|reflexivity].
     + apply (Nearest_wd ((7 # 2) / 3)); [vm_compute; reflexivity|]. exact nearest_7_6.
 Qed.
-(* what phylib returned for 65537 coincident spikes (measured): the wrapped value of the true count *)
-Example C15_ex_int32 : wrap32 2147516416 = -2147450880 /\ wrap32 2147450880 = 2147450880.
-Proof. vm_compute. tauto. Qed.
+(* what the unrepaired phylib (int32 array) returned for 65537 coincident spikes (measured): the wrapped value of the
+   true count; the repaired int64 array holds it, and everything up to 2^32 spikes *)
+Example C15_ex_int32 : wrap32 2147516416 = -2147450880 /\ wrap32 2147450880 = 2147450880 /\
+                       wrap64 2147516416 = 2147516416 /\ wrap64 (tri (2 ^ 32)) = tri (2 ^ 32) /\
+                       wrap64 (tri (2 ^ 32 + 1)) <> tri (2 ^ 32 + 1).
+Proof. vm_compute. repeat split; congruence. Qed.
+Example C15_ex_coincident :
+  correlograms (repeat 5 4) (repeat 7 4) (Some [7]) 1 1 4 true = Some [[ [0; 0; 6; 0; 0] ]] /\
+  coinc_sym 4 2 = [[ [0; 0; 6; 0; 0] ]] /\ coinc_onesided 65537 1 = [[ [2147516416; 0] ]].
+Proof. vm_compute. repeat split; reflexivity. Qed.
 Example C15_ex_rate_params :
   exact_f64 ((3 # 8) / (1 # 2)) = true /\ exact_f64 (inject_Z (3 * 2) * ((3 # 8) / (1 # 2))) = true /\
   f_rate_entry 3 2 (3 # 8) (1 # 2) (9 # 2).
